@@ -394,20 +394,23 @@ Proof.
 Qed.
 
 Lemma flat_map_loop f l :
-  (forall x s, f x s = flat_body x s) ->
+  (forall x, In x (i_items l) -> forall s, f x s = flat_body x s) ->
   forall s, for_res f (i_items l) s = Ok (s ++ flat_paths (Map l)).
 Proof.
-  intros Hf. induction l as [|[k x] l IH]; intros s; cbn [i_items map for_res]; [cbn; rewrite app_nil_r; reflexivity|].
-  fold (i_items l). cbn [fst snd]. rewrite Hf, flat_body_inst. rewrite IH.
+  induction l as [|[k x] l IH]; intros Hf s; cbn [i_items map for_res]; [cbn; rewrite app_nil_r; reflexivity|].
+  fold (i_items l). cbn [fst snd]. rewrite Hf by (left; reflexivity). rewrite flat_body_inst.
+  rewrite IH by (intros y Hy; apply Hf; right; exact Hy).
   cbn [flat_paths flat_map fst snd]. rewrite <- app_assoc. reflexivity.
 Qed.
 
 Lemma flat_arr_loop f l :
-  (forall x s, f x s = flat_body x s) ->
-  forall i s, for_res f (enum_from i (map inst_of l)) s = Ok (s ++ flat_arr_with flat_paths i l).
+  forall i, (forall x, In x (enum_from i (map inst_of l)) -> forall s, f x s = flat_body x s) ->
+  forall s, for_res f (enum_from i (map inst_of l)) s = Ok (s ++ flat_arr_with flat_paths i l).
 Proof.
-  intros Hf. induction l as [|x l IH]; intros i s; cbn [map enum_from for_res]; [cbn; rewrite app_nil_r; reflexivity|].
-  rewrite Hf, flat_body_inst. rewrite IH. cbn [flat_arr_with]. rewrite <- app_assoc. reflexivity.
+  induction l as [|x l IH]; intros i Hf s; cbn [map enum_from for_res]; [cbn; rewrite app_nil_r; reflexivity|].
+  rewrite Hf by (left; reflexivity). rewrite flat_body_inst.
+  rewrite IH by (intros y Hy; apply Hf; right; exact Hy).
+  cbn [flat_arr_with]. rewrite <- app_assoc. reflexivity.
 Qed.
 
 Definition act_of (f : field) : pyv := PAction (f_w f) (f_a f).
